@@ -157,6 +157,19 @@ func runC18(rc *RunCtx) *simkit.Violation {
 		for i := 0; i < steps && out == nil; i++ {
 			dirs := live(func(n *mNode) bool { return n.dir })
 			files := live(func(n *mNode) bool { return !n.dir })
+			// files that were unlinked (or replaced by a rename) but are still referenced by the kernel - an open file
+			// descriptor: POSIX keeps them readable and writable until the last reference goes
+			var orphans []*mNode
+			for _, n := range known {
+				if !n.dir && !n.linked && n.lookups > 0 && n.ino != 0 {
+					orphans = append(orphans, n)
+				}
+			}
+			ioTargets := files
+			if len(orphans) > 0 && t.Bool(1, 3) {
+				ioTargets = orphans
+				w.Probe("io-on-unlinked-open-file")
+			}
 			switch k := t.Pick(0, 0, 1, 1, 2, 2, 3, 4, 5, 6, 7, 8, 9, 10); k {
 			case 0, 1: // create file / mkdir under a known directory, on a free name (the VFS answers EEXIST itself)
 				p := dirs[t.Choose(len(dirs))]
@@ -195,10 +208,10 @@ func runC18(rc *RunCtx) *simkit.Violation {
 					return nil, nil
 				}
 			case 2: // write
-				if len(files) == 0 {
+				if len(ioTargets) == 0 {
 					continue
 				}
-				f := files[t.Choose(len(files))]
+				f := ioTargets[t.Choose(len(ioTargets))]
 				off := t.Pick(0, 0, len(f.data), len(f.data)+3, t.Range(0, len(f.data)+1))
 				data := t.Bytes(t.Pick(1, 10, 100, 5000))
 				// open / write / (fsync) / flush / release, as the kernel drives a write(2) + close(2)
@@ -225,10 +238,10 @@ func runC18(rc *RunCtx) *simkit.Violation {
 				}
 				copy(f.data[off:], data)
 			case 3: // truncate / extend
-				if len(files) == 0 {
+				if len(ioTargets) == 0 {
 					continue
 				}
-				f := files[t.Choose(len(files))]
+				f := ioTargets[t.Choose(len(ioTargets))]
 				sz := uint64(t.Pick(0, len(f.data)/2, len(f.data), len(f.data)+17))
 				err := fs.SetInodeAttributes(bg, &fuseops.SetInodeAttributesOp{Inode: f.ino, Size: &sz})
 				note("truncate %s to %d -> %s", f.path(), sz, errnoName(err))
@@ -242,10 +255,10 @@ func runC18(rc *RunCtx) *simkit.Violation {
 					f.data = append(f.data, make([]byte, int(sz)-len(f.data))...)
 				}
 			case 4: // read, also across and at EOF (the kernel asks for whole pages)
-				if len(files) == 0 {
+				if len(ioTargets) == 0 {
 					continue
 				}
-				f := files[t.Choose(len(files))]
+				f := ioTargets[t.Choose(len(ioTargets))]
 				if len(f.data) == 0 {
 					continue // the kernel knows the size and answers reads at or past EOF itself
 				}
